@@ -212,6 +212,11 @@ impl<D: DictionaryAccess> DictBuilder<D> {
     pub fn compile<W: Write>(&mut self, w: &mut W) -> SudachiResult<()> {
         self.check_if_resolved()?;
         let report = ReportBuilder::new("validate").read();
+        if !self.user {
+            // connection ids of a system dictionary refer to its own matrix, even if it is absent
+            self.lexicon
+                .set_max_conn_sizes(self.conn.left(), self.conn.right());
+        }
         self.lexicon.validate_entries()?;
         self.reporter.collect(self.lexicon.entries().len(), report);
         let mut written = self.header.write_to(w)?;
